@@ -1040,7 +1040,30 @@ class Context:
             self.goals.append(Goal(label, 'proved'))
             return True
         if r == z3.sat:
-            self.goals.append(Goal(label, 'violated', self.solver.model(), detail))
+            m = self.solver.model()
+            # prefer a counterexample with moderate magnitudes (huge model values make the float replay pass within its
+            # relative tolerance): one more query with bounds on the real-valued inputs, kept only if it is still sat
+            try:
+                bounds = []
+                for v in self.inputs.values():
+                    if isinstance(v, SymNum) and not v.is_int and not v.is_const():
+                        bounds.append(z3.And(v.z3() >= -8, v.z3() <= 8))
+                if bounds:
+                    self.solver.set('timeout', min(self.timeout_ms, 5000))
+                    # first choice: inputs on the lattice (1/8)Z within [-8, 8] (violations of linear goals are then not tiny)
+                    lattice = []
+                    for n, v in enumerate(self.inputs.values()):
+                        if isinstance(v, SymNum) and not v.is_int and not v.is_const():
+                            lattice.append(v.z3() * 8 == z3.ToReal(z3.Int('lat!%d' % n)))
+                    r2 = self._check(z3.Not(z), *(bounds + lattice))
+                    if r2 != z3.sat:
+                        r2 = self._check(z3.Not(z), *bounds)
+                    self.solver.set('timeout', self.timeout_ms)
+                    if r2 == z3.sat:
+                        m = self.solver.model()
+            except (z3.Z3Exception, PathLimit):
+                self.solver.set('timeout', self.timeout_ms)
+            self.goals.append(Goal(label, 'violated', m, detail))
             return False
         # second chance: fresh non-incremental solver (stronger for nonlinear arithmetic)
         s2 = z3.Solver()
